@@ -170,6 +170,12 @@ type Rec struct {
 	Fingerprint func(p media.Pack) uint64
 	fps         []uint64
 	ClosePanics bool // Close counts the call and then panics too (e.g. a consumer whose connection is nil)
+	// CloseWaitsForConsume makes Close wait for a Consume call in progress, the way the
+	// real adapters do whose Close takes the write lock their Consume holds while it
+	// writes to the client (service/wsp.Session): closing such a consumer from any
+	// goroutine but its own delivery goroutine blocks for as long as the client stalls.
+	CloseWaitsForConsume bool
+	cmu                  sync.Mutex // held by Consume for its whole duration
 }
 
 // NewRec returns a recording consumer.
@@ -177,6 +183,8 @@ func NewRec(name string) *Rec { return &Rec{Name: name} }
 
 // Consume records the pack (by identity).
 func (r *Rec) Consume(p media.Pack) {
+	r.cmu.Lock()
+	defer r.cmu.Unlock()
 	r.mu.Lock()
 	g := r.gate
 	if g != nil {
@@ -207,7 +215,12 @@ func (r *Rec) Close() error {
 	r.mu.Lock()
 	r.closed++
 	cp := r.ClosePanics
+	cw := r.CloseWaitsForConsume
 	r.mu.Unlock()
+	if cw {
+		r.cmu.Lock()
+		r.cmu.Unlock()
+	}
 	if cp {
 		panic("verif: consumer's Close panics on purpose")
 	}
